@@ -969,6 +969,9 @@ class AirTouch4(pyairtouch.api.AirTouch):
                 self._state == _AirTouchState.INIT_AC_STATUS
             ):
                 await self._process_ac_status_message(ac_statuses)
+                if self._state != _AirTouchState.INIT_AC_STATUS:
+                    # shutdown() was called while the status was being processed.
+                    return
                 # Move to the next state
                 self._state = _AirTouchState.INIT_AC_TIMER_STATUS
                 await self._socket.send(
@@ -980,6 +983,9 @@ class AirTouch4(pyairtouch.api.AirTouch):
                 self._state == _AirTouchState.INIT_AC_TIMER_STATUS
             ):
                 await self._process_ac_timer_status_message(ac_timer_statuses)
+                if self._state != _AirTouchState.INIT_AC_TIMER_STATUS:
+                    # shutdown() was called while the status was being processed.
+                    return
                 # Move to the next state
                 self._state = _AirTouchState.INIT_GROUP_STATUS
                 await self._socket.send(
@@ -991,6 +997,9 @@ class AirTouch4(pyairtouch.api.AirTouch):
                 self._state == _AirTouchState.INIT_GROUP_STATUS
             ):
                 await self._process_group_status_message(groups)
+                if self._state != _AirTouchState.INIT_GROUP_STATUS:
+                    # shutdown() was called while the status was being processed.
+                    return
                 # Move to the next state
                 self._state = _AirTouchState.CONNECTED
                 await self._heartbeat_manager.start()
